@@ -379,6 +379,60 @@ let do_libdis (args : string list) : string =
          (if own = [] then "-" else String.concat ";" (List.map dline_text own)))
   | _ -> "BADCASE"
 
+(* ------------------------------------------------------------ lifter *)
+let dec_of_n (x : n) : string = string_of_int (int_of_string ("0x" ^ hex_of_n x))
+let rec lval_text (v : M.lval) : string =
+  match v with
+  | M.VWord0 w -> "w" ^ dec_of_n w
+  | M.VStr0 s -> "s" ^ hex_of_bytes s
+  | M.VTypeTok k -> "t" ^ dec_of_n k
+  | M.VConstTok k -> "c" ^ dec_of_n k
+  | M.VJump k -> "j" ^ dec_of_n k
+  | M.VOpt None -> "n"
+  | M.VOpt (Some x) -> "o(" ^ lval_text x ^ ")"
+  | M.VList l -> "[" ^ String.concat "," (List.map lval_text l) ^ "]"
+  | M.VPair (a, b) -> "(" ^ lval_text a ^ "," ^ lval_text b ^ ")"
+let lnode_text (nd : M.lnode) : string =
+  string_of_coq nd.M.ln_variant ^ "{" ^
+  String.concat "," (List.map (fun (f, v) -> string_of_coq f ^ "=" ^ lval_text v) nd.M.ln_fields) ^ "}"
+let lconst_text (c : M.lconst) : string =
+  match c with
+  | M.CBool b -> "Bool(" ^ string_of_bool b ^ ")"
+  | M.CUInt v -> "UInt(" ^ dec_of_n v ^ ")"
+  | M.CInt z -> "Int(" ^ (match z with M.Z0 -> "0" | M.Zpos p -> dec_of_n (M.Npos p) | M.Zneg p -> "-" ^ dec_of_n (M.Npos p)) ^ ")"
+  | M.CFloat b -> "Float(" ^ dec_of_n b ^ ")"
+  | M.CComposite l -> "Composite[" ^ String.concat "," (List.map dec_of_n l) ^ "]"
+  | M.CNull -> "Null"
+  | M.CSampler (a, nrm, f) -> Printf.sprintf "Sampler(%s,%s,%s)" (dec_of_n a) (string_of_bool nrm) (dec_of_n f)
+let lterm_text (t : M.lterm) : string =
+  match t with M.TTerm nd -> lnode_text nd | M.TBranch nd -> "Branch(" ^ lnode_text nd ^ ")"
+let operr_text = function M.WrongType -> "WrongType" | M.WrongEnumValue -> "WrongEnumValue" | M.Missing -> "Missing"
+let insterr_text = function
+  | M.WrongOpcode -> "WrongOpcode" | M.MissingResult -> "MissingResult" | M.OperandErr e -> "Operand(" ^ operr_text e ^ ")"
+let lerror_text = function
+  | M.MissingHeader -> "MissingHeader" | M.MissingFunction -> "MissingFunction" | M.MissingFunctionType -> "MissingFunctionType"
+  | M.MissingLabel -> "MissingLabel" | M.MissingTerminator -> "MissingTerminator" | M.InstructionErr e -> "Instruction(" ^ insterr_text e ^ ")"
+let do_lift (args : string list) : string =
+  match args with
+  | [b] ->
+    (match M.lift_case (bytes_of_hex b) with
+     | None -> "NOLOAD"
+     | Some (M.LPanic0 _) -> "PANIC"
+     | Some (M.LErr0 e) -> "LIFTERR:" ^ lerror_text e
+     | Some (M.LOk r) ->
+       let (a, m) = r.M.sr_mm in
+       let fn_text (f : M.sr_function) =
+         Printf.sprintf "%s.%s.%s{%s}" (dec_of_n f.M.sf_control) (dec_of_n f.M.sf_result) (dec_of_n f.M.sf_start)
+           (String.concat ";" (List.map (fun (bl : M.sr_block) ->
+              String.concat "," (List.map dec_of_n bl.M.sb_arguments) ^ "/" ^ lterm_text bl.M.sb_terminator) f.M.sf_blocks)) in
+       Printf.sprintf "OK v=%s|caps=%s|mm=%s.%s|T=%s|C=%s|O=%s|F=%s"
+         (dec_of_n r.M.sr_version) (String.concat "," (List.map dec_of_n r.M.sr_caps)) (dec_of_n a) (dec_of_n m)
+         (String.concat ";" (List.map lnode_text r.M.sr_types))
+         (String.concat ";" (List.map lconst_text r.M.sr_constants))
+         (String.concat ";" (List.map lnode_text r.M.sr_ops))
+         (String.concat "&" (List.map fn_text r.M.sr_functions)))
+  | _ -> "BADCASE"
+
 (* ------------------------------------------------------------ builder *)
 let berr_name (e : M.berr) : string =
   match e with
@@ -520,6 +574,7 @@ let () =
         | "bld" :: r -> do_bld r
         | "load" :: r -> do_load r
         | "libdis" :: r -> do_libdis r
+        | "lift" :: r -> do_lift r
         | _ -> "BADCASE" in
       print_string out; print_char '\n'
     done
